@@ -283,14 +283,14 @@ def check_hmmer(hits, out, cutoffs, limit, count=None):
     pool = set(hits)
     if any(o not in pool for o in out):
         devs.append(("output-is-input", dict(base, foreign=[list(o) for o in out if o not in pool])))
-    if len(set(out)) != len(out):
+    excess = {o: out.count(o) - list(hits).count(o) for o in set(out) if o in pool and out.count(o) > list(hits).count(o)}
+    if excess:
         first = min(h.s for h in pool)
-        twice = [o for o in set(out) if out.count(o) > 1]
-        devs.append(("output-no-duplicates", dict(
-            base, duplicated=[list(o) for o in sorted(twice)],
-            only_earliest_hit_shorter_than_limit=all(o.s == first and o.e - o.s < limit and out.count(o) == 2
-                                                     for o in twice))))
-        out = sorted(set(out), key=out.index)      # judge the remaining clauses on the distinct hits
+        devs.append(("output-is-sub-multiset-of-input", dict(
+            base, excess=[[list(o), n] for o, n in sorted(excess.items())],
+            only_earliest_hit_shorter_than_limit=all(o.s == first and o.e - o.s < limit and n == 1
+                                                     for o, n in excess.items()))))
+    out = sorted(set(out), key=out.index)      # judge the remaining clauses on the distinct hits
     for i in range(len(out)):
         for j in range(i + 1, len(out)):
             sh = shared(out[i], out[j])
@@ -379,8 +379,10 @@ def check_filter_results(by_cds_in, by_cds_out, results_in, results_out, groups,
             if len(comp) > 1 and count is not None:
                 count("filter_results:overlap-group")
             if not any(h in after for h in best):
-                devs.append(("group-best-survives", dict(facts, group=[list(h) for h in comp],
-                                                         tie_for_best=len(best) > 1)))
+                devs.append(("group-best-survives", dict(
+                    facts, group=[list(h) for h in comp], tie_for_best=len(best) > 1,
+                    chain_group_of_4=len(comp) >= 4 and any(shared(a, b) <= COMPETE_OVERLAP
+                                                            for a in comp for b in comp if a != b))))
         for i in range(len(after)):
             for j in range(i + 1, len(after)):
                 if shared(after[i], after[j]) > COMPETE_OVERLAP:
